@@ -204,3 +204,67 @@ class ValidatorsValidate(Contract):
 
 
 CONTRACTS.append(ValidatorsValidate())
+
+
+# ---- _parse_definitions: the document-level rules run on EVERY document, whatever it contains
+DOCUMENT_RULES = [('fragment-spreads-must-not-form-cycles', 'fragments'), ('operation-name-uniqueness', 'operations'), ('lone-anonymous-operation', 'operations'),
+                  ('single-root-field', 'definitions'), ('fragment-name-uniqueness', 'fragments'), ('fragment-spread-target-defined', 'fragments'),
+                  ('fragment-must-be-used', 'fragments'), ('fragment-spread-is-possible', 'fragments'), ('all-variable-uses-defined', 'operations'),
+                  ('all-variables-used', 'operations'), ('all-variable-usages-are-allowed', 'operations')]
+ParsedDef = z3.Function('ParsedDefinition', V, V)           # _parse_definition(json): the definition node
+AllDefAsts = ForallList('definition_json', lambda j: z3.And(V.is_Dict(j), z3.Or(lookup(V.ditems(j), S('kind')) == S('FragmentDefinition'), lookup(V.ditems(j), S('kind')) == S('OperationDefinition'))))
+
+
+class ParseDefinitions(Contract):
+    """_parse_definitions: after the definitions are parsed, each of the eleven document-level rules is run exactly once, in the documented order, on
+    the whole list of fragment definitions / operation definitions -- unconditionally (a document without fragment definitions still has spreads to
+    check, one without operations still has fragments to check)"""
+    key = TRF + '_parse_definitions'
+    property_ids = ('C07', 'C06')
+    params = ['definitions_ast', 'validators', 'path']
+    callee_models = {TRF + '_parse_definition': lambda en, st, a, kw: [(st, ParsedDef(en.read(a[0], st)))]}
+
+    def args(self, en, names):
+        self.A = super().args(en, names)
+        return self.A
+
+    def pre(self, A, st):
+        d = A['definitions_ast']
+        return [('validators', z3.And(exact(A['validators'], 'Validators'), V.oref(A['validators']) >= 0)),
+                ('json', z3.Or(d == V.None_, z3.And(V.is_List(d), AllDefAsts(V.items(d)))))]
+
+    def ghost0(self, A):
+        return {'rules': V.List(VL.nil)}
+
+    def getattr_hook(self, en, st, v, attr):
+        if attr == 'validate' and z3.eq(v, self.A['validators']):
+            def run(en, s, a, kw):
+                rule = en.read(kw['rule'], s)
+                subject = [en.read(kw[k], s) for k in ('fragments', 'operations', 'definitions') if k in kw]
+                entry = V.Tuple(mklist(rule, subject[0] if len(subject) == 1 and not a else V.Missing))
+                return [(s.put_ghost('rules', V.List(snoc(V.items(s.ghost['rules']), entry))), V.None_)]
+            return [(st, PyFunc('validators.validate', run))]
+        return None
+
+    def _inv(self, en, st, k, st0):
+        d = en.read(st.env['parsed_def'], st)
+        return {'two_lists': z3.And(V.is_Dict(d), V.is_List(lookup(V.ditems(d), S('FragmentDefinition'))), V.is_List(lookup(V.ditems(d), S('OperationDefinition'))),
+                                    length(V.ditems(d)) == 2),
+                'no_rule_yet': st.ghost['rules'] == V.List(VL.nil)}
+
+    @property
+    def loops(self):
+        return {0: LoopContract(self._inv)}
+
+    def post(self, A, st0, out):
+        if out.kind == 'raise':
+            return never_raises(out)
+        ran = V.items(out.st.ghost['rules'])
+        cl = [('eleven_document_rules_ran', length(ran) == len(DOCUMENT_RULES))]
+        for i, (rule, what) in enumerate(DOCUMENT_RULES):
+            cl.append((f"rule_{i}_{rule.replace('-', '_')}", z3.And(nth(ran, i) != V.Missing, nth(V.titems(nth(ran, i)), 0) == S(rule),
+                                                                   nth(V.titems(nth(ran, i)), 1) != V.Missing)))
+        return cl
+
+
+CONTRACTS.append(ParseDefinitions())
